@@ -155,6 +155,12 @@ def run_scanner(ctx):
             if c.get("k") == "bin" and c["op"] == "Eq" and (is_lit(c["l"], BSL) or is_lit(c["r"], BSL)):
                 if any(y.get("k") == "assign" and y["op"] == "Add" and H.show(y["r"]) == "2" for y in H.walk(x["then"])):
                     pair = True
+        if x.get("k") == "match":
+            # `match bytes[i] { b'\\' => { i += 2; .. } b'"' => .. }` — the same test written as a match
+            for arm in x["arms"]:
+                if any(H.pat_str(alt).strip() in BSL for alt in H.pat_alts(arm["pat"])):
+                    if any(y.get("k") == "assign" and y["op"] == "Add" and H.show(y["r"]) == "2" for y in H.walk(arm["body"])):
+                        pair = True
         if x.get("k") == "index":
             i_ = H.strip(x["i"])
             if i_.get("k") == "bin" and i_["op"] == "Sub":
